@@ -1,4 +1,5 @@
 import SkgVerif.Lemmas.PermInv
+import SkgVerif.Gen.Source
 /-!
 # C11 — how distances are supplied never changes the variogram
 
@@ -99,5 +100,10 @@ theorem C11_zero_counterexample :
     let dropped := recs.filter fun p => p.1 ≠ 0
     countOf [1, 3] recs = [1, 2] ∧ countOf [1, 3] dropped = [0, 2] := by
   refine ⟨by decide +kernel, by decide +kernel⟩
+
+/-- the sparse route takes the strict lower triangle of the stored matrix with explicit zeros kept (`sparse.tril(k=-1)`), and the same pipeline statements as the dense route -/
+theorem C11_source_storage : Gen.sparseTriangleSource =
+    [
+    ("returns", "return sparse.tril(self.distance_matrix, k=-1, format='csr')")] := by rfl
 
 end Skg
